@@ -521,7 +521,12 @@ fn byz_shape(r: &mut Rng, master: u8) -> ByzShape {
         }
         17 => {
             if r.chance(1, 2) {
-                ByzShape::Truncated(r.range(1, 12) as u8)
+                // (the longest cut is replaced by the nested-telegram shape: added later, placed
+                // here so that every other scenario of a seed stays what it was)
+                match r.range(1, 12) as u8 {
+                    12 => ByzShape::Nested,
+                    k => ByzShape::Truncated(k),
+                }
             } else {
                 let n = r.range(1, 4) as usize;
                 ByzShape::Trailing(r.bytes(n))
@@ -1576,6 +1581,7 @@ fn systematic_dp_faults(idx: u64, w: &WorldCfg, random_plan: &[Fault], quiet_pha
                 out.push(Fault { trig: Trigger::NthTx { n: (n + 3 + n % 7) as u32, class: TxClass::DpRequest }, kind: FaultKind::SlavePower { slave: sl, on: true }, delay_us: 0 });
                 (req, FaultKind::SlavePower { slave: sl, on: false })
             }
+            6 if n % 17 == 16 => (req, FaultKind::SlaveByz { slave: sl, shape: ByzShape::Nested, count: 2 }),
             6 => (req, FaultKind::SlaveByz { slave: sl, shape: ByzShape::Silent, count: (n % 17 + 1) as u8 }),
             7 => (req, FaultKind::UserDiag { station: 0, app: 0, periph: sl }),
             8 => (
@@ -1891,7 +1897,39 @@ pub fn generate(check: &str, tier: Tier, base_seed: u64, k: u64) -> Scenario {
             // no jitter and no skew, and a damaged / truncated token or first telegram.  Whatever
             // both stations do in answer to one common event they do in lock-step; if that is
             // transmitting, they never hear each other again (F18).
-            if w.stations.len() == 2 && r.chance(1, 2) {
+            let symmetric = w.stations.len() == 2 && r.chance(1, 2);
+            // Sole survivor (every sixth of the other worlds; a generator of its own, so that the
+            // rest of a seed's scenarios stay what they were): a station that is still listening
+            // hears one token whose source address was damaged into its own, and then every other
+            // master stops for good.  The listener has to claim the token after its time-out.
+            let mut rs = Rng::derived(seed, "survivor", 0);
+            if !symmetric && rs.chance(1, 6) {
+                let tslot_us = bit_us(w.baud, u64::from(w.stations[0].slot_bits)).max(1);
+                let t2 = w.fault_deadline_us.max(400 * tslot_us);
+                let li = rs.below(w.stations.len() as u64) as usize;
+                let t_join = rs.range(t2 / 4, t2 / 2);
+                let l_addr = w.stations[li].addr;
+                for (j, s) in w.stations.iter_mut().enumerate() {
+                    let t0 = s.plan.first().map(|p| p.0).unwrap_or(0).min(t_join / 4);
+                    s.plan = vec![(if j == li { t_join } else { t0 }, PlanOp::Online)];
+                    s.rejoin_keep_apps = None;
+                }
+                f.clear();
+                let after = t_join + rs.range(0, 30) * tslot_us;
+                let k = rs.range(0, 8) as u32;
+                f.push(Fault { trig: Trigger::NthTx { n: k, class: TxClass::TokenAfterUs(after) }, kind: FaultKind::Subst { byte: 2, val: l_addr }, delay_us: 0 });
+                let k2 = k + rs.range(0, 3) as u32;
+                for j in 0..w.stations.len() {
+                    if j != li {
+                        f.push(Fault {
+                            trig: Trigger::NthTx { n: k2, class: TxClass::TokenAfterUs(after) },
+                            kind: FaultKind::Crash { station: j, restart_after_us: None },
+                            delay_us: rs.range(0, 3 * tslot_us),
+                        });
+                    }
+                }
+            }
+            if symmetric {
                 let p = w.stations[0].p_max_us.min(w.stations[1].p_max_us).max(1);
                 let g = w.stations[0].gap;
                 for s in w.stations.iter_mut() {
